@@ -466,6 +466,61 @@ def gated (byweekno : Option (List Int)) : Bool :=
   | some l => !l.isEmpty
   | none => false
 
+/-! ### the state cache behind `@memorable` (`evaluate_memorable_function`, `get_contextual_state`)
+
+`Schedule.Event` is a `@memorable` function: outside `for_each` its `CalendarRule` is created once
+per *(context, argument values)* and fetched again for every later row of the template — which is
+why a field sees one occurrence per row.  Two different calls evaluated in the same context (e.g.
+two `Schedule.Event(...)` inside one formula) must therefore differ in their key. -/
+
+/-- one evaluation of a memorable function; argument values are abstracted to codes -/
+structure Call where
+  ctx : Nat                        -- `context.unique_context_identifier`
+  args : List Int                  -- positional values
+  kwargs : List (String × Int)     -- keyword items, in call order
+  deriving DecidableEq, Repr
+
+/-- what a cache key may be built from -/
+inductive KeyPart
+  | contextId | argValues | kwargItems | argCount | kwargNames
+  deriving DecidableEq, Repr
+
+/-- the source text of a key component -/
+def KeyPart.src : KeyPart → String
+  | .contextId => "context.unique_context_identifier"
+  | .argValues => "tuple(args)"
+  | .kwargItems => "tuple(kwargs.items())"
+  | .argCount => "len(args)"
+  | .kwargNames => "tuple(kwargs.keys())"
+
+inductive KeyVal
+  | ctx (n : Nat) | vals (l : List Int) | items (l : List (String × Int)) | count (n : Nat)
+  | names (l : List String)
+  deriving DecidableEq, Repr
+
+def KeyPart.of (c : Call) : KeyPart → KeyVal
+  | .contextId => .ctx c.ctx
+  | .argValues => .vals c.args
+  | .kwargItems => .items c.kwargs
+  | .argCount => .count c.args.length
+  | .kwargNames => .names (c.kwargs.map (·.1))
+
+/-- the components of `user_key` (pinned: `Gen.Memorable.userKeyParts`) -/
+def keyParts : List KeyPart := [.contextId, .argValues, .kwargItems]
+
+def keyWith (parts : List KeyPart) (c : Call) : List KeyVal := parts.map (KeyPart.of c)
+
+def cacheKey (c : Call) : List KeyVal := keyWith keyParts c
+
+/-- `Interpreter.instance_states` restricted to one function, no `parent`, no `name` override -/
+abbrev Store (σ : Type) := List (List KeyVal × σ)
+
+/-- `get_contextual_state`: fetch the state stored under the key, else make and store it -/
+def evalMemo {σ : Type} (parts : List KeyPart) (make : Call → σ) (st : Store σ) (c : Call) : σ × Store σ :=
+  match st.lookup (keyWith parts c) with
+  | some v => (v, st)
+  | none => (make c, (keyWith parts c, make c) :: st)
+
 /-! ### what a template sees -/
 
 inductive Out
